@@ -111,7 +111,9 @@ func (u *User) iteratePaths(cleanPath, permissionType string) (bool, error) {
 		var negate bool
 
 		splitted := strings.Split(permission, ":")
-		if len(splitted) > 1 {
+		// Only a leading word such as "readfiles:" is a permission type. A bare
+		// pattern may itself contain ':' (e.g. a POSIX class like [[:alpha:]]).
+		if len(splitted) > 1 && isPermissionTypeWord(splitted[0]) {
 			typeStr = splitted[0]
 			permission = strings.Join(splitted[1:], ":")
 		}
@@ -145,4 +147,18 @@ func (u *User) iteratePaths(cleanPath, permissionType string) (bool, error) {
 	}
 
 	return hasPermission, nil
+}
+
+// isPermissionTypeWord reports whether s looks like a permission type prefix
+// (letters only), as opposed to the beginning of a regular expression.
+func isPermissionTypeWord(s string) bool {
+	if s == "" {
+		return false
+	}
+	for _, r := range s {
+		if (r < 'a' || r > 'z') && (r < 'A' || r > 'Z') {
+			return false
+		}
+	}
+	return true
 }
